@@ -42,10 +42,10 @@ func (r *Rand) Intn(n int) int {
 	}
 	return int(r.U64() % uint64(n))
 }
-func (r *Rand) Range(lo, hi int) int { return lo + r.Intn(hi-lo+1) }
-func (r *Rand) Float() float64      { return float64(r.U64()>>11) / float64(1<<53) }
-func (r *Rand) Bool(p float64) bool { return r.Float() < p }
-func (r *Rand) Fork() *Rand         { return NewRand(r.U64()) }
+func (r *Rand) Range(lo, hi int) int   { return lo + r.Intn(hi-lo+1) }
+func (r *Rand) Float() float64         { return float64(r.U64()>>11) / float64(1<<53) }
+func (r *Rand) Bool(p float64) bool    { return r.Float() < p }
+func (r *Rand) Fork() *Rand            { return NewRand(r.U64()) }
 func PickOf[T any](r *Rand, xs ...T) T { return xs[r.Intn(len(xs))] }
 
 func Mix(seed uint64, parts ...string) uint64 {
@@ -269,17 +269,17 @@ type RunOpts struct {
 
 // Outcome is what the simulator observed (independent of any oracle).
 type Outcome struct {
-	Trace     []verifsim.Decision `json:"-"`
-	Steps     int                 `json:"steps"`
-	FakeNs    int64               `json:"fake_ns"`
-	Faults    map[string]int      `json:"faults,omitempty"`
-	Probes    map[string]int      `json:"probes,omitempty"`
-	SchedHash uint64              `json:"sched_hash"`
+	Trace     []verifsim.Decision    `json:"-"`
+	Steps     int                    `json:"steps"`
+	FakeNs    int64                  `json:"fake_ns"`
+	Faults    map[string]int         `json:"faults,omitempty"`
+	Probes    map[string]int         `json:"probes,omitempty"`
+	SchedHash uint64                 `json:"sched_hash"`
 	SitePairs map[[2]string]struct{} `json:"-"`
-	Aborted   string              `json:"aborted,omitempty"`
-	Panic     string              `json:"panic,omitempty"`
-	Leaked    int                 `json:"leaked"`
-	Choices   int                 `json:"choices"`
+	Aborted   string                 `json:"aborted,omitempty"`
+	Panic     string                 `json:"panic,omitempty"`
+	Leaked    int                    `json:"leaked"`
+	Choices   int                    `json:"choices"`
 }
 
 var Heartbeat atomic.Int64
